@@ -8,7 +8,7 @@ HC == IF IOEnv.CH_CONTENTS = "small" THEN {"A", "B"} ELSE {"A", "B", "H", "P"}
 CC == IF IOEnv.CH_CONTENTS = "small" THEN {"A", "B"} ELSE {"A", "B", "P"}
 TT == {"A", "B"}
 Side == IOEnv.CH_SIDE       \* "holder", "cp" or "all"
-HolderOps == {"GetPoint", "GetSecret", "GetSecretOrNone", "CheckFutureSecret", "ValidateHolder",
+HolderOps == {"GetPoint", "GetSecret", "GetSecretOrNone", "CheckFutureSecret", "ValidateHolder", "ValidateHolderRaw",
               "Activate", "Revoke", "SignHolder", "SignHolderRecovery", "SignHolderRedundant",
               "Restart"}
 CpOps == {"SignCp", "ValidateRevocation", "Restart"}
